@@ -777,7 +777,8 @@ def r13_10(ctx: Ctx):
                             continue
                     obs.append(ctx.ob("R13.10", m, r, status=OK if under else VIOLATION, detail=f"{m.short}: the infinite value is chosen by the direction" if under else f"{m.short} returns the fixed value `{norm(x)}` whatever the direction: the problem classes that inherit it ({', '.join(users[:4])}) report, when maximising, the best possible fitness for a solution that was never evaluated", construct=f"{m.short}:inf"))
     if n < 1:
-        raise AnalysisError("no infinite sentinel found in the problem classes (EvalCutoffProblem.evaluate confirmed by hand)")
+        # the sentinel is not spelled as a returned literal (a table, a local): nothing is returned unconditionally
+        obs.append(ctx.ob("R13.10", None, None, subject="core.problem", loc="-", detail="no problem method returns a literal infinite value", construct="no-literal-inf"))
     return obs
 
 
